@@ -755,7 +755,12 @@ class FnCtx:
         if nouts == 1:
             self.emit("let %s := %s" % (tmps[0], call))
         else:
-            self.emit("let (%s) := %s" % (", ".join(tmps), call))
+            # no pattern-lets (they elaborate to `match`): bind the tuple, then project
+            tt = self.fresh("rt")
+            self.emit("let %s := %s" % (tt, call))
+            for k, t in enumerate(tmps):
+                proj = tt + ".2" * k + (".1" if k < nouts - 1 else "")
+                self.emit("let %s := %s" % (t, proj))
         ti = 0
         ret = None
         if info.ret_cat is not None:
